@@ -50,14 +50,15 @@ type Doc struct {
 
 // Doc-level features (known-finding gates through DocOpts.Want).
 const (
-	FeatBodyNumEdge = "bodynum-edge"  // purely numeric body line as the first/last body line of a page
-	FeatBodyRepeat  = "body-repeat"   // body line repeated at the same place on several pages
-	FeatMargNum     = "margin-num"    // constant numeric fragment in the band that also holds the page number
-	FeatMargUnique  = "margin-uniq"   // non-repeating text inside a margin band
-	FeatHdrDigits   = "header-digits" // running header containing a constant number
-	FeatMixedSize   = "mixed-size"    // pages of different sizes
-	FeatMargShadow  = "margin-shadow" // the one-page marginal text is painted twice, 1-2 pt apart (drop shadow / fake bold)
+	FeatBodyNumEdge = "bodynum-edge"     // purely numeric body line as the first/last body line of a page
+	FeatBodyRepeat  = "body-repeat"      // body line repeated at the same place on several pages
+	FeatMargNum     = "margin-num"       // constant numeric fragment in the band that also holds the page number
+	FeatMargUnique  = "margin-uniq"      // non-repeating text inside a margin band
+	FeatHdrDigits   = "header-digits"    // running header containing a constant number
+	FeatMixedSize   = "mixed-size"       // pages of different sizes
+	FeatMargShadow  = "margin-shadow"    // the one-page marginal text is painted twice, 1-2 pt apart (drop shadow / fake bold)
 	FeatHdrBandEdge = "header-band-edge" // the running header's top edge is inside the top band, its baseline is not
+	FeatCoverTitle  = "cover-title"      // header on every page but the first; the first page shows the same words elsewhere in the band
 )
 
 // DocOpts tunes GenDoc.
@@ -311,6 +312,15 @@ func GenDoc(t *rapid.T, o DocOpts) Doc {
 					hy = H - (Margin - hdrEdgeK) - hs // top edge Margin-k below the page top, baseline k closer to the body
 				}
 				madd(ws, d.HeaderForm, al, hy+jit, RoleHeader, jit)
+			} else if !d.HeaderRunNo && !mixed && n >= 3 && want(FeatCoverTitle, pct("coverTitle", 40)) {
+				// the cover shows the title that later runs along the top of the pages, in the same band but at
+				// another place: it does not repeat at that position, so it stays
+				feat[FeatCoverTitle] = true
+				other := "center"
+				if al == "center" {
+					other = "left"
+				}
+				madd(ws, "frag", other, topRow(0), RoleMargin, 0)
 			}
 		}
 		if d.Footer != "none" {
